@@ -19,7 +19,7 @@ int main(int argc, char** argv)
         Cow* cow = x.make<Cow>("cow", Cell(0L, Cell::Temp{}));  // the initial version is Cell instance 1
         vrt::g_cell.loudLife = true;        // from now on construction / destruction of versions are steps
         vrt::g_cell.quietCtor = true;
-        static const std::vector<const char*> names{"write_commit", "write_cancel", "write_move_commit", "snap_read", "snap_hold", "try_snap"};
+        static const std::vector<const char*> names{"write_commit", "write_cancel", "write_move_commit", "snap_read", "snap_hold", "try_snap", "write_move_stale_cancel"};
         int tid = 0;
         for (auto& menus : vrt::parse_prog(x.rt.cfg.prog)) {
             ++tid;
@@ -38,14 +38,16 @@ int main(int argc, char** argv)
                         a = vrt::sched_point(pop);
                     }
                     int op = menu[(size_t)a];
-                    vrt::log_ev("call", names[(size_t)op], 0, op <= 2 ? digit : 0);
+                    bool wr = op <= 2 || op == 6;
+                    vrt::log_ev("call", names[(size_t)op], 0, wr ? digit : 0);
                     long r = 0;
-                    if (op <= 2) {
+                    if (wr) {
                         {
                             auto h = cow->lock();
                             vrt::log_ev("wget", "cell", h->id, h->peek());
-                            if (op == 2) {
+                            if (op == 2 || op == 6) {
                                 auto h2(std::move(h));
+                                if (op == 6) h.cancel();  // the moved-from handle is empty: cancelling it must not touch the writer lock
                                 h2->mutate([digit](long v) { return vrt::upd(v, digit); });
                                 r = h2->a;
                                 vrt::log_ev("wrel", "cell", h2->id, 1);
